@@ -189,6 +189,13 @@ def run_task(task, acc):
             xl_track = [list(p) for p in alpha.xl(tuple(RED), 5000, 2)]
             for r in (None, 1000.0, 111_000.0, 250_000.0):
                 yield dict(track=xl_track, bbox=list(BOXES[1]), range_max=r)
+            # long tracks on both sides of the antimeridian and around the globe: the extent's corner-to-corner distance is small
+            # (or meaningless) although single hops are huge
+            wrap = ((179.9, 0.0), (-179.9, 0.0), (0.0, 0.0), (90.0, 0.1), (179.5, 0.2), (-179.6, -0.1))
+            for pts in (wrap, wrap[:2] + wrap[4:], tuple(GLOBE)):
+                tr = [list(p) for p in alpha.xl(pts, 1200, 2)]
+                for r in (1000.0, 100_000.0, 5_000_000.0):
+                    yield dict(track=tr, bbox=["default", None], range_max=r)
             track = [list(p) for p in alpha.debruijn(tuple(BOXPOS), 2)]  # every ordered pair of positions as a hop, 1297 fixes
             for b in BOXES:
                 for r in (None, 0.0, 1000.0, 111_000.0, 250_000.0, 1e7):
